@@ -41,11 +41,23 @@ def parseCase (toks : List String) : Option FileSt :=
     pure { data := d, hs := modes.toList.map fun c => { readOnly := c == 'r' } }
   | _ => none
 
+/-- `copyout h`: io.Copy(w, f) into a plain writer — Read until the end of the file; the final io.EOF is
+    not an error for io.Copy, every other error is (and is reported with the bytes copied so far) -/
+def copyOut (s : FileSt) (h : Nat) : FileSt × String :=
+  let r := stepC s (.read h (2 ^ 40))
+  match r.2 with
+  | .bytes b (some .eof) => (r.1, s!"bytes={hexOrDash b} err:-")
+  | .err e => (r.1, s!"bytes=- err:{e.tag}")
+  | o => (r.1, render o)
+
 def stepLine (s : FileSt) (line : String) : FileSt × String :=
   let toks := tokens line
   match parseCase toks with
   | some s' => (s', "case")
   | none =>
+    match toks with
+    | ["copyout", h] => (match parseNat h with | some k => copyOut s k | none => (s, "bad-op"))
+    | _ =>
     match parseOp toks with
     | none => (s, "bad-op")
     | some op => let (s', o) := stepC s op; (s', render o)
